@@ -253,8 +253,11 @@ def rand_extras(rng, reg, rows, cols, n_layout_max):
         return [1, []]
     ents = []
     used = set()
-    free_cells = rows * cols - n_layout_max
-    for _ in range(rng.randint(1, 4)):
+    n_extras = rng.randint(1, 4)
+    # agents without an initial position are placed at random after all the others: only use
+    # them when there is a cell for everybody
+    room = rows * cols >= n_layout_max + n_extras
+    for _ in range(n_extras):
         if mode == "clash" and reg and rng.random() < 0.7:
             _, kind, base, _, _ = rng.choice(reg)
             idz = base * 100 + rng.randint(0, 3)
@@ -267,7 +270,7 @@ def rand_extras(rng, reg, rows, cols, n_layout_max):
         if mode == "badkey" and rng.random() < 0.5:
             key = idz + 50
         hp = 1
-        if rows * cols > 0 and free_cells - len(ents) > 2 and rng.random() < 0.3:
+        if room and rng.random() < 0.3:
             hp = 0
         r = rng.randrange(rows) if rows else 0
         c = rng.randrange(cols) if cols else 0
@@ -277,7 +280,7 @@ def rand_extras(rng, reg, rows, cols, n_layout_max):
 
 def gen_builders(tier, rng):
     quick = tier != "thorough"
-    N = 2500 if quick else 40000
+    N = 8000 if quick else 60000
     # fixed corner cases first
     A, B = S("A"), S("B")
     regAB = [[A, 0, 1, 1, 0], [B, 0, 2, 2, 1]]
@@ -333,7 +336,7 @@ def gen_builders(tier, rng):
 
 def gen_file(tier, rng):
     quick = tier != "thorough"
-    N = 1500 if quick else 20000
+    N = 4000 if quick else 30000
     fixed = ["", "\n", "A", "A\n", "A B\nB A\n", "A B\nB A", "A  B\n", "A B \nA B\n", "A B\nA\n",
              "A\n\nA\n", "\n\n", " \n", "A B\n\n", "0 A\n. _\n", "AB A\nA AB\n"]
     regAB = [[S("A"), 0, 1, 1, 0], [S("B"), 1, 2, 2, 1], [S("AB"), 0, 3, 3, 2], [S(""), 0, 4, 1, 0]]
@@ -372,7 +375,7 @@ def gen_file(tier, rng):
 
 def gen_grid(tier, rng):
     quick = tier != "thorough"
-    N = 1200 if quick else 15000
+    N = 3000 if quick else 20000
     for _ in range(N):
         rows, cols = rng.randint(1, 4), rng.randint(1, 4)
         g = []
@@ -485,7 +488,27 @@ def classify_grid(inp, out):
     return "ok" + ("/multi-agent-cell" if multi else "") + ("/extras" if inp[1][0] == 1 and inp[1][1] else "")
 
 
+def _in_domain(inp):
+    """extras stand inside the grid, and agents without initial position have room"""
+    arr, reg, extra = inp
+    rows, cols = len(arr), (len(arr[0]) if arr else 0)
+    if extra[0] == 0:
+        return True
+    for k, i, enc, cls, hp, r, c in extra[1]:
+        if hp and not (r < rows and c < cols):
+            return False
+        if not hp and rows * cols < _n_registered(inp) + len(extra[1]):
+            return False
+    return True
+
+
 def shrink_builders(inp):
+    for cand in _shrink_builders(inp):
+        if _in_domain(cand):
+            yield cand
+
+
+def _shrink_builders(inp):
     arr, reg, extra = inp
     if len(arr) > 1:
         for i in range(len(arr)):
